@@ -9,7 +9,7 @@ import configuration as r_conf
 
 RULE = ('a grammar over the documented keys produces dictionaries with 1-3 connections; starting from a valid one, 0-3 values at connection, auth and protect '
         'level are replaced by: another valid value, missing, wrong type (None, int, float, bool, str, list, dict), out of range, unknown name, IPv6, '
-        'listening / non-listening / loopback local address. Oracles: (1) Configuration(...) either returns or raises ConfigurationError (subclass), never '
+        'listening / non-listening / loopback / IPv4-mapped local address; a quarter of the dictionaries share list / dict objects between connections as YAML anchors and merge keys do; every odd / unknown value of every key is also applied once as the only change. Oracles: (1) Configuration(...) either returns or raises ConfigurationError (subclass), never '
         'anything else; (2) when it returns and the independent reader of the documentation can say what the dictionary means, every connection is keyed by '
         '(local, peer) address and equals the reference: IKE transforms (type, id, key length) in listed order with the documented defaults, per protect entry '
         'protocol, ESP/AH transform list (no ENCR for AH, NO_ESN last), selectors as address / port ranges, IP protocol, mode, lifetime, index when given, '
@@ -83,7 +83,7 @@ MUTABLE_AUTH = ['id', 'psk', 'privkey', 'pubkey']
 MUTABLE_PROT = ['ipsec_proto', 'encr', 'integ', 'dh', 'mode', 'ip_proto', 'my_port', 'peer_port', 'my_subnet', 'peer_subnet', 'lifetime', 'index']
 UNKNOWN = {'encr': ['3des', 'aes192', 'AES256'], 'integ': ['md5', 'sha384'], 'prf': ['md5', 'sha384'], 'dh': ['2', 'modp1024', 22, '0'],
            'mode': ['beet', 'Tunnel', ''], 'ip_proto': ['sctp', 'TCP', '6'], 'ipsec_proto': ['ESP', 'ipcomp', '50']}
-ODD = {'my_addr': ['203.0.113.9', '127.0.0.1', '::1', '0.0.0.0', '192.0.2.1/32', '999.1.1.1', 'not an address'], 'peer_addr': ['300.1.1.1', '', '::ffff:1.2.3.4', 'fe80::1%eth0'],
+ODD = {'my_addr': ['203.0.113.9', '127.0.0.1', '::1', '0.0.0.0', '192.0.2.1/32', '999.1.1.1', 'not an address', '::ffff:192.0.2.1', '::ffff:c000:201', '::192.0.2.1', '::ffff:198.51.100.7', '2001:db8::1:0'], 'peer_addr': ['300.1.1.1', '', '::ffff:1.2.3.4', 'fe80::1%eth0'],
        'my_subnet': ['10.1.2.3/16', '10.0.0.0/33', 'abc', '::/0'], 'peer_subnet': ['10.1.2.3/16', 'xyz/24'], 'my_port': [-1, 65536, 70000, '23x'], 'peer_port': [-5, 99999],
        'lifetime': [0, -1, 'abc', 10 ** 12], 'dpd': [0, -3, 'x'], 'index': [-1, 0, 2 ** 29, 'x'], 'psk': ['', 'x' * 500, 'päss'], 'id': ['', 'a@b@c', '1.2.3', '::', 'x' * 300],
        'privkey': ['garbage', ''], 'pubkey': ['-----BEGIN PUBLIC KEY-----\nAAAA\n-----END PUBLIC KEY-----\n']}
@@ -200,15 +200,76 @@ def compare(ck, loaded, want, case):
                 bad('random-index-range', p.index, '0..2^20')
 
 
+def share_objects(rng, conf):
+    """What a YAML anchor / merge key (`protect: *p`, `<<: *base`) or a program filling connections from one template produces: the SAME list / dict object
+    reachable from several connections. The meaning of the dictionary is unchanged."""
+    names = list(conf)
+    if len(names) < 2:
+        return None
+    src, dst = conf[names[0]], conf[rng.choice(names[1:])]
+    kind = rng.choice(['same-protect-list', 'same-protect-entries', 'same-auth-sections', 'same-algorithm-lists'])
+    if kind == 'same-protect-list':
+        dst['protect'] = src['protect']
+    elif kind == 'same-protect-entries':
+        dst['protect'] = list(src['protect'])
+    elif kind == 'same-auth-sections':
+        dst['my_auth'], dst['peer_auth'] = src['my_auth'], src['peer_auth']
+    else:
+        for k in ('encr', 'integ', 'prf', 'dh'):
+            if k in src:
+                dst[k] = src[k]
+    return kind
+
+
+def systematic(rng):
+    """Every odd / unknown value of every key once, as the only mutation of an otherwise valid dictionary."""
+    for table, kind in ((ODD, 'odd-value'), (UNKNOWN, 'unknown-name')):
+        for key, values in sorted(table.items()):
+            for v in values:
+                conf = {'conn0': base_conn(rng, 0), 'conn1': base_conn(rng, 1)}
+                conn = conf['conn0']
+                if key in MUTABLE_AUTH:
+                    which = rng.choice(['my_auth', 'peer_auth'])
+                    conn[which][key] = v
+                    path = f'auth.{key}'
+                elif key in MUTABLE_CONN and not (key in MUTABLE_PROT and rng.random() < 0.5):
+                    conn[key] = [v] if (kind == 'unknown-name' and key in ('encr', 'integ', 'prf', 'dh')) else v
+                    path = f'conn.{key}'
+                else:
+                    conn['protect'][0][key] = [v] if (kind == 'unknown-name' and key in ('encr', 'integ', 'dh')) else v
+                    path = f'prot.{key}'
+                yield conf, [(path, kind + ':systematic')]
+
+
 def run(ck):
     rng = ck.rng('c19', ck.shard[0])
     N = 6000 if not ck.thorough() else 1200000
     listen = [ipaddress.ip_address(a) for a in LISTEN]
-    for i in range(N):
+    sysgen = systematic(ck.rng('c19-systematic'))
+    sysdone = False
+    i = -1
+    while True:
+        i += 1
+        if i >= N and sysdone:
+            break
+        forced = None
+        if i >= N:
+            forced = next(sysgen, None)
+            if forced is None:
+                sysdone = True
+                continue
         if not ck.mine(i):
             continue
-        conf = {f'conn{j}': base_conn(rng, j) for j in range(rng.randrange(1, 4))}
-        muts = mutate(rng, conf) if i % 5 else []
+        if forced is not None:
+            conf, muts = forced
+            ck.count('systematic.cases')
+        else:
+            conf = {f'conn{j}': base_conn(rng, j) for j in range(rng.randrange(1, 4))}
+            shared = share_objects(rng, conf) if rng.random() < 0.25 else None
+            muts = mutate(rng, conf) if i % 5 else []
+            if shared:
+                muts = muts + [('shared-objects', shared)]
+                ck.count(f'shared.{shared}')
         case = {'conf': conf, 'mutations': muts}
         for m in muts:
             ck.count(f'mutated.{m[0]}')
@@ -256,6 +317,8 @@ def verdict(ck):
     ck.floor('share rejected (%)', 100 * (c['outcome.rejected'] + c['outcome.foreign']) // tot, 20)
     ck.floor('configurations compared field by field', c['compare.configurations'], 800)
     ck.floor('protect entries compared', c['compare.protect_entries'], 2000)
+    ck.floor('dictionaries with objects shared between connections (YAML anchors)', sum(v for k, v in c.items() if k.startswith('shared.')), 300)
+    ck.floor('systematic single-value cases', c['systematic.cases'], 60)
     ck.floor('distinct mutated keys', len([k for k in c if k.startswith('mutated.')]), 25)
     ck.floor('every mutated key >= 20 times', min([v for k, v in c.items() if k.startswith('mutated.') and k.count('.') == 2] or [0]), 20)
     return None
